@@ -25,7 +25,7 @@ MUTABLE = ('BitArray', 'BitStream')
 STREAM = ('ConstBitStream', 'BitStream')
 
 READ_OPS = ('getitem', 'getslice', 'find', 'rfind', 'findall', 'startswith', 'endswith', 'cut', 'count', 'all', 'any',
-            'lshift', 'rshift', 'unpack', 'whole', 'pack', 'contains')
+            'lshift', 'rshift', 'unpack', 'whole', 'pack', 'contains', 'iter')
 STREAM_OPS = ('read', 'peek', 'readlist', 'setpos')
 MUT_OPS = ('setitem', 'setslice', 'setslice_int', 'delitem', 'delslice', 'set', 'invert', 'insert', 'overwrite',
            'append', 'prepend', 'reverse', 'byteswap', 'replace', 'ilshift', 'irshift', 'rol', 'ror', 'lazy_then')
@@ -371,6 +371,9 @@ class ELsb0(Engine):
             else:
                 x.invert()
             return list(gen)
+        if op == 'iter':
+            # iteration goes by position: item k is x[k] in the mode in force
+            return [bool(v) for _, v in zip(range(400), x)]
         if op in ('find', 'rfind'):
             return getattr(x, op)(self._bs(R, ev, 'bs', mirror), g('start'), g('end'), g('bytealigned'))
         if op == 'contains':
